@@ -102,7 +102,7 @@ pub fn silence_stdout() -> std::fs::File {
     }
 }
 
-pub fn run_one(spec: &RunSpec, properties: &[String], deadline: Instant, stop_at_first: bool) -> Result<RunResult, String> {
+pub fn run_one(spec: &RunSpec, properties: &[String], deadline: Instant, stop_at_first: bool, guards: &[crate::known::Guard]) -> Result<RunResult, String> {
     let t0 = Instant::now();
     let shared = Shared::new();
     let nthreads = threads();
@@ -113,10 +113,7 @@ pub fn run_one(spec: &RunSpec, properties: &[String], deadline: Instant, stop_at
         properties: properties.to_vec(),
         stop_at_first,
     };
-    let mut guards = vec![];
-    for p in properties {
-        guards.extend(crate::known::guards_for(p));
-    }
+    let guards: Vec<crate::known::Guard> = guards.to_vec();
     let root = scratch_root();
 
     // ---- frontier generation (breadth-first, main thread)
@@ -350,14 +347,56 @@ pub fn run_check(
     let props = if property == "ALL" { vec![] } else { vec![property.to_string()] };
     let mut results = vec![];
     let mut exit = 0;
-    let known = crate::known::guards_for(property);
+    // known findings: a guard is armed only while its recorded replay still fails
+    let mut known = vec![];
     let mut known_hit: Vec<String> = vec![];
+    for g in crate::known::guards_for(property) {
+        let Some(rel) = g.finding.replay.clone() else {
+            known.push(g);
+            continue;
+        };
+        let path = crate::known::verif_root().join(&rel);
+        let parsed = std::fs::read_to_string(&path)
+            .ok()
+            .and_then(|t| serde_json::from_str::<serde_json::Value>(&t).ok());
+        let Some(v) = parsed else {
+            let _ = writeln!(out, "MACHINERY-ERROR property={property} cannot read known-finding replay {}", path.display());
+            cleanup_scratch();
+            return 2;
+        };
+        let opts: Opts = match serde_json::from_value(v["opts"].clone()) {
+            Ok(o) => o,
+            Err(_) => Opts::default(),
+        };
+        let Ok(events) = serde_json::from_value::<Vec<Event>>(v["events"].clone()) else {
+            let _ = writeln!(out, "MACHINERY-ERROR property={property} bad events in {}", path.display());
+            cleanup_scratch();
+            return 2;
+        };
+        match replay(&opts, &events) {
+            Ok(vs) => {
+                if vs.iter().any(|x| g.text_matches(&x.property, &x.what)) {
+                    known_hit.push(g.finding.id.clone());
+                    known.push(g);
+                }
+                // else: the recorded history no longer fails - the guard is disarmed and the
+                // space behind it is explored normally
+            }
+            Err(e) => {
+                let _ = writeln!(out, "MACHINERY-ERROR property={property} known-finding replay {}: {e}", path.display());
+                cleanup_scratch();
+                return 2;
+            }
+        }
+    }
     for (i, spec) in specs.iter().enumerate() {
         // share the remaining budget evenly over the remaining specs
         let now = Instant::now();
         let remaining = deadline.saturating_duration_since(now);
-        let share = remaining / ((specs.len() - i) as u32);
-        let r = match run_one(spec, &props, now + share, false) {
+        // each later run keeps a 6 s reserve; the rest may be used by this one
+        let left = (specs.len() - i) as u32;
+        let share = (remaining / left).max(remaining.saturating_sub(Duration::from_secs(6 * (left as u64 - 1))));
+        let r = match run_one(spec, &props, now + share, false, &known) {
             Ok(r) => r,
             Err(e) => {
                 let _ = writeln!(out, "MACHINERY-ERROR property={property} {e}");
